@@ -73,6 +73,7 @@ class Trace:
         self.switch_labels = []  # list of label tuples, one per switch executed
         self.exit_paths = []     # paths of inlined callees that terminate the process
         self.frozen_values = {}  # frozen name -> [terms assigned]
+        self.int_overflow = []   # (type, loc, operation) signed overflow met during integer constant propagation
         self.obj_calls = []      # library method calls on member objects: (path, method, arg terms, loc)
 
 
@@ -192,7 +193,7 @@ class Evaluator:
             if op in ('++', '--'):
                 tgt = e['e']
                 old = self.E(tgt, P, fr)
-                new = ('add', (old, num(1 if op == '++' else -1)))
+                new = self.fold_int('+', old, num(1 if op == '++' else -1), e.get('t'), e.get('l')) or ('add', (old, num(1 if op == '++' else -1)))
                 self.assign(tgt, new, P, fr, e.get('l'))
                 return old if e.get('post') else new
             return ('unk', 'unary ' + op)
@@ -202,10 +203,12 @@ class Evaluator:
                 v = self.E(e['b'], P, fr)
                 self.assign(e['a'], v, P, fr, e.get('l'))
                 return v
-            if op in ('+=', '-=', '*=', '/='):
+            if op in ('+=', '-=', '*=', '/=', '%='):
                 a = self.E(e['a'], P, fr)
                 b = self.E(e['b'], P, fr)
-                v = self.binop(op[0], a, b)
+                v = self.fold_int(op[0], a, b, e.get('t'), e.get('l'))
+                if v is None:
+                    v = self.binop(op[0], a, b) if op[0] != '%' else ('call', 'mod', (a, b))
                 self.assign(e['a'], v, P, fr, e.get('l'))
                 return v
             if op == ',':
@@ -213,19 +216,9 @@ class Evaluator:
                 return self.E(e['b'], P, fr)
             a = self.E(e['a'], P, fr)
             b = self.E(e['b'], P, fr)
-            if op in ('+', '-', '*', '/', '%') and e.get('t') in ('int', 'unsigned int', 'long', 'unsigned long') and a[0] == 'num' and b[0] == 'num' \
-                    and a[1].denominator == 1 and b[1].denominator == 1:
-                # integer constant folding (constant propagation of int arguments)
-                x, y = int(a[1]), int(b[1])
-                if op == '+':
-                    return num(x + y)
-                if op == '-':
-                    return num(x - y)
-                if op == '*':
-                    return num(x * y)
-                if y != 0:
-                    q = abs(x) // abs(y) * (1 if (x >= 0) == (y >= 0) else -1)
-                    return num(q) if op == '/' else num(x - q * y)
+            f = self.fold_int(op, a, b, e.get('t'), e.get('l'))
+            if f is not None:
+                return f
             if op in ('+', '-', '*', '/'):
                 if op == '/' and 'int' in str(e.get('t', '')) and e.get('t') in ('int', 'unsigned int', 'long', 'unsigned long'):
                     return ('call', 'intdiv', (a, b))
@@ -276,6 +269,38 @@ class Evaluator:
         if k == 'nullptr':
             return num(0)
         return ('unk', k)
+
+    INT_RANGES = {'int': (-2 ** 31, 2 ** 31 - 1), 'long': (-2 ** 63, 2 ** 63 - 1), 'unsigned int': (0, 2 ** 32 - 1), 'unsigned long': (0, 2 ** 64 - 1),
+                  'short': (-2 ** 15, 2 ** 15 - 1), 'unsigned short': (0, 2 ** 16 - 1), 'long long': (-2 ** 63, 2 ** 63 - 1), 'unsigned long long': (0, 2 ** 64 - 1)}
+
+    def fold_int(self, op, a, b, ty, loc):
+        """integer constant folding (constant propagation of int arguments) with the type's overflow behaviour:
+        unsigned arithmetic wraps, signed overflow is undefined and recorded"""
+        ty = str(ty or '').replace('const ', '')
+        if ty not in self.INT_RANGES or op not in ('+', '-', '*', '/', '%'):
+            return None
+        if not (a[0] == 'num' and b[0] == 'num' and a[1].denominator == 1 and b[1].denominator == 1):
+            return None
+        x, y = int(a[1]), int(b[1])
+        if op == '+':
+            r = x + y
+        elif op == '-':
+            r = x - y
+        elif op == '*':
+            r = x * y
+        else:
+            if y == 0:
+                return None
+            q = abs(x) // abs(y) * (1 if (x >= 0) == (y >= 0) else -1)
+            r = q if op == '/' else x - q * y
+        lo, hi = self.INT_RANGES[ty]
+        if r < lo or r > hi:
+            if lo == 0:
+                r %= (hi + 1)
+            else:
+                self.trace.int_overflow.append((ty, loc, '%d %s %d' % (x, op, y)))
+                return ('unk', 'signed integer overflow in %s at %s' % (ty, loc))
+        return num(r)
 
     @staticmethod
     def binop(op, a, b):
@@ -817,6 +842,44 @@ class Evaluator:
                     mem.add(pth)
         return loc, mem
 
+    def try_unroll(self, s, P, fr, limit=256):
+        """constant-trip-count loops (condition decidable from propagated constants on every iteration, one path per
+        iteration) are unrolled; anything else falls back to the abstract single-iteration summary"""
+        if s['k'] == 'do' or s.get('c') is None:
+            return None
+        Q = P.fork()
+        saved_events = len(Q.events)
+        n = 0
+        while True:
+            c = self.E(s['c'], Q, fr)
+            tv = self.truth(c)
+            if tv is None:
+                return None
+            if tv is False:
+                break
+            outs = self.exec_stmt(s['body'], Q, fr)
+            if len(outs) != 1:
+                return None
+            Q = outs[0]
+            if Q.kind == 'ret' or Q.kind == 'exit':
+                self.adopt_into(P, Q)
+                return [P]
+            if Q.kind == 'break':
+                Q.kind = 'fall'
+                break
+            Q.kind = 'fall'
+            if s['k'] == 'for' and s.get('inc') is not None:
+                self.E(s['inc'], Q, fr)
+            n += 1
+            if n > limit:
+                return None
+        self.adopt_into(P, Q)
+        return [P]
+
+    @staticmethod
+    def adopt_into(P, Q):
+        P.locals, P.mem, P.conds, P.events, P.kind, P.ret, P.exit_hit = Q.locals, Q.mem, Q.conds, Q.events, Q.kind, Q.ret, Q.exit_hit
+
     def exec_loop(self, s, P, fr):
         """one abstract iteration.  Variables assigned in the body carry the marker symbol
         '@loop:<name>' on entry to the body and become the opaque term loop(<values after one
@@ -824,6 +887,9 @@ class Evaluator:
         if s['k'] == 'for' and s.get('init') is not None:
             res = self.exec_stmt(s['init'], P, fr)
             P = res[0]
+        un = self.try_unroll(s, P, fr)
+        if un is not None:
+            return un
         loc, mem = self.scan_assigned({'b': s.get('body'), 'i': s.get('inc')}, P, fr)
         for lid, name in loc.items():
             if (fr['id'], lid) in P.locals:
